@@ -4,7 +4,9 @@ Contracts for C04 "change detection is exact".
 E3 (bounded): kopf._cogs.structs.diffs.diff/reduce and handlers.ResourceHandler.adjust_cause.
 E1 (bounded): essence_cfg = progress_storage.clear o diffbase_storage.build: own writes invisible, other
               Kopf operators' writes invisible (ping-pong), everything else counts.
-E2 (deductive + bounded remainder): the non-recursive helpers of kopf._cogs.configs.conventions.
+E2 (deductive): the non-recursive helpers of kopf._cogs.configs.conventions (remove_empty_stanzas, _store_marker, the
+              decision of _detect_marked_prefixes);  E2p (deductive): the annotation filter inside DiffBaseStorage.build;
+E2b (bounded remainder of E2): key splitting in _detect_marked_prefixes, remove_annotations.
 
 Everything that serves as an oracle here (RFC 7386 merge, `norm`, `apply_diff`, `resolve_ref`) is written
 in this file, independently of /repo.
@@ -444,9 +446,19 @@ SYSMETA = ({'name': 'obj'},
             'creationTimestamp': '2020-01-01T00:00:00Z', 'finalizers': [FINALIZER],
             'managedFields': [{'manager': 'kubectl'}]})
 EXTRAS = ((), (('spec', 'x'),), (('status', 'observed'),))
-ANNOTATION_KINDS = ('user', 'bare', 'kubectl', 'empty', 'own-progress', 'own-diffbase', 'other-operator')
-USER_ANNOTATIONS = {'user': ('example.com/note', 'x'), 'bare': ('note', 'y'), 'empty': ('example.com/empty', ''),
-                    'kubectl': ('kubectl.kubernetes.io/last-applied-configuration', '{"spec":{}}\n')}
+ANNOTATION_KINDS = ('user', 'kubectl', 'lookalikes', 'own-progress', 'own-diffbase', 'other-operator')
+
+
+def user_annotations(kind, cfg, other):
+    """Annotations that are NOT an operator's: ordinary ones; kubectl's; and "look-alikes" whose keys merely string-extend an
+    operator's prefix without the '/' boundary (another domain: kopf.zalando.organic, my-op.example.com.au, ...)."""
+    if kind == 'user':
+        return {'example.com/note': 'x', 'note': 'y', 'example.com/empty': ''}
+    if kind == 'kubectl':
+        return {'kubectl.kubernetes.io/last-applied-configuration': '{"spec":{}}\n'}
+    if kind == 'lookalikes':
+        return {'kopf.zalando.organic/tier': 'gold', f'{cfg.prefix}.au/x': '1', f'{other.prefix}x/y': 'v', f'{cfg.prefix}-2/kopf-unmanaged': 'no'}
+    return None
 
 
 def base_body(spec, status, labels, data, sysmeta):
@@ -464,9 +476,9 @@ def with_annotations(body, kinds, cfg, other):
     (own) / `other` (another Kopf-based operator), so every body is a state those operators can reach."""
     from kopf._cogs.structs import bodies, patches
     for kind in kinds:
-        if kind in USER_ANNOTATIONS:
-            k, v = USER_ANNOTATIONS[kind]
-            body = apply_merge_patch(body, {'metadata': {'annotations': {k: v}}})
+        plain = user_annotations(kind, cfg, other)
+        if plain is not None:
+            body = apply_merge_patch(body, {'metadata': {'annotations': plain}})
             continue
         patch = patches.Patch()
         view = bodies.Body(body)
@@ -483,7 +495,7 @@ def with_annotations(body, kinds, cfg, other):
     return body
 
 
-def essential_changes(body, cfg_prefixes, extra_fields):
+def essential_changes(body, operator_prefixes, extra_fields):
     """Changes that the property says DO count: a leaf under spec, another top-level payload field, a label,
     an annotation outside the operators' prefixes -- each to a value that is not `≅` to the previous one.
     Returns [(label, new body)]."""
@@ -510,11 +522,16 @@ def essential_changes(body, cfg_prefixes, extra_fields):
     annotations = body['metadata'].get('annotations') or {}
     out.append(('annotation-added', apply_merge_patch(body, {'metadata': {'annotations': {'example.com/added': 'v'}}})))
     out.append(('bare-annotation-added', apply_merge_patch(body, {'metadata': {'annotations': {'plain': ''}}})))
-    for kind in ('user', 'bare', 'empty'):
-        k, v = USER_ANNOTATIONS[kind]
-        if k in annotations:
-            out.append((f'annotation-changed({kind})', apply_merge_patch(body, {'metadata': {'annotations': {k: v + '!'}}})))
-            out.append((f'annotation-removed({kind})', apply_merge_patch(body, {'metadata': {'annotations': {k: None}}})))
+    # keys of OTHER domains that merely begin like an operator's prefix (no '/' right after it) are ordinary annotations
+    for p in sorted(set(operator_prefixes) | {'kopf.zalando.org'}):
+        for key in (f'{p}anic/tier', f'{p}.au/tier'):
+            out.append((f'lookalike-annotation-added({key})', apply_merge_patch(body, {'metadata': {'annotations': {key: 'v'}}})))
+    ours = tuple(f'{p}/' for p in set(operator_prefixes) | {'kopf.zalando.org'})
+    for k, v in annotations.items():
+        if k.startswith(ours) or k.startswith('kubectl.kubernetes.io/'):
+            continue
+        out.append((f'annotation-changed({k})', apply_merge_patch(body, {'metadata': {'annotations': {k: v + '!'}}})))
+        out.append((f'annotation-removed({k})', apply_merge_patch(body, {'metadata': {'annotations': {k: None}}})))
     for path in extra_fields:
         if path[0] == 'status':
             out.append(('extra-field-changed', apply_merge_patch(body, {'status': {path[1]: 'changed!'}})))
@@ -570,10 +587,10 @@ def _e1_bodies(b, cfg, other):
                   'stored_essence_is_fixpoint', 'everything_else_counts', 'pure'],
          universe='72 configurations {Annotations,Status,Smart,Multi progress} x {Annotations,Status,Multi diff-base} x prefixes '
                   '{kopf.zalando.org,my-op.example.com,kopf.dev} x v1 {T,F}; other operator: 4 storage combinations x the 2 other prefixes; '
-                  'bodies: subsets (<=2 quick, <=3 thorough) of 7 annotation kinds x rotating 6 spec shapes, 4 status shapes, 3 label shapes, 2 data, 2 system-metadata shapes '
+                  'bodies: subsets (<=2 quick, <=3 thorough) of 6 annotation kinds (user, kubectl, look-alikes of the operators\' prefixes without the "/" boundary, own progress, own diff-base, other operator) x rotating 6 spec shapes, 4 status shapes, 3 label shapes, 2 data, 2 system-metadata shapes '
                   '(operator-made annotations produced by the real storage code); extra_fields in {(), spec.x, status.observed}; '
                   'writes: progress store/purge (4 ids) / touch (2), diffbase store (2), marker, one whole-cycle patch, 3 finalizer edits, '
-                  '5 status edits, 11 system-metadata edits; ~25 essential edits per body')
+                  '5 status edits, 11 system-metadata edits; ~35 essential edits per body (incl. adding/changing/removing look-alike annotations)')
 def E1(b):
     """
     essence_cfg(body) = progress_storage.clear(diffbase_storage.build(body, extra_fields)) is what the change detector
@@ -590,7 +607,8 @@ def E1(b):
       stored_essence_is_fixpoint     after diffbase.store(essence_cfg(body)) is applied, the next event sees old ≅ new:
                                      clear(fetch(body')) ≅ essence_cfg(body')
       everything_else_counts         a changed/added/removed leaf under spec, other top-level payload field, label, or
-                                     annotation outside the operators' prefixes (and an extra field) changes essence_cfg
+                                     annotation outside the operators' prefixes -- including keys of other domains that merely begin
+                                     like such a prefix (kopf.zalando.organic/..) -- (and an extra field) changes essence_cfg
       pure                           build/clear do not mutate the body
     Bounded stand-in (labelled B): build/clear are compositions of deepcopy, recursive dicts.cherrypick/remove and
     string-prefix scans over arbitrary JSON; the non-recursive helpers are contracted separately (E2).
@@ -650,7 +668,7 @@ def E1(b):
                 b.check('stored_essence_is_fixpoint', old is not None and same(old, new),
                         lambda: dict(ctx, body=body, after_store=body2, old=old, new=new))
                 # -- everything else counts
-                for label, body2 in essential_changes(body, cfg.annotation_prefixes, extra):
+                for label, body2 in essential_changes(body, {cfg.prefix, primary_other.prefix}, extra):
                     b.case(key=None)
                     try:
                         e1 = essence_of(cfg, body2, extra)
@@ -919,3 +937,75 @@ def E2b(b):
                     b.check('remove_annotations', after == {k: v for k, v in before.items() if k not in rm}, w)
                     rest = lambda x: {k: ({kk: vv for kk, vv in v.items() if kk != 'annotations'} if k == 'metadata' else v) for k, v in x.items()}
                     b.check('remove_annotations_frame', rest(e) == rest(essence), w)
+
+
+# =========================================================================== E2p: which annotations build() drops
+class _AnnotationsAtLoopHead:
+    """metadata.annotations of the essence while build() scans it: arbitrary content; deletions are recorded."""
+    def __init__(self):
+        self.deleted = []
+
+    def __iter__(self):
+        return iter(())          # the scanned keys come from the loop contract (one arbitrary key)
+
+    def __delitem__(self, key):
+        self.deleted.append(key)
+
+    def get(self, key, default=None):
+        return default
+
+
+@harness('E2p', targets='kopf._cogs.configs.diffbase.DiffBaseStorage.build', props=['C04'],
+         clauses=['dropped_iff_under_marked_prefix', 'drops_only_the_scanned_key', 'prefixes_come_from_detector'],
+         canaries=['canary.drops_everything', 'canary.drops_nothing'],
+         trusted=['copy.deepcopy / dicts.cherrypick / dicts.remove: structure-preserving helpers, exercised for real in E1'])
+def E2p(vc):
+    """
+    The annotation filter inside DiffBaseStorage.build, for EVERY annotation key and EVERY pair of marked prefixes (loop
+    contract: one arbitrary key of an arbitrary annotations mapping; `_detect_marked_prefixes` by contract E2/E2b):
+      dropped_iff_under_marked_prefix  the key is removed from the essence iff it is `<p>/...` for a marked prefix p -- the '/'
+                                       boundary included, so `kopf.zalando.organic/x` survives a marked `kopf.zalando.org` --
+                                       or it is kubectl's last-applied-configuration
+      drops_only_the_scanned_key       nothing but that key is removed in its iteration
+      prefixes_come_from_detector      the marked prefixes are obtained by ONE call of _detect_marked_prefixes (contract E2/E2b)
+    Everything else of build() (copying, cherry-picking, stanza cleaning) is covered by E1/E2; here those callees are
+    structure-preserving stubs.
+    """
+    from pyvc.loader import _STOP
+    from pyvc.stubs import Opaque
+    key, p1, p2 = vc.str('annotation'), vc.str('marked prefix 1'), vc.str('marked prefix 2')
+    ann = _AnnotationsAtLoopHead()
+    detector_calls = []
+
+    def detect(keys):
+        detector_calls.append(keys)
+        return [p1, p2]      # any collection of prefixes: two arbitrary members
+
+    def cherrypick(src, dst, fields, picker=None):
+        if fields and 'metadata.annotations' in list(fields):
+            dst['metadata'] = {'annotations': ann}
+    me = Opaque('storage', _detect_marked_prefixes=detect, remove_empty_stanzas=lambda essence: None, ignored_fields=[])
+    from kopf._cogs.structs import bodies
+    body = bodies.Body({'apiVersion': 'v1', 'kind': 'X', 'metadata': {'name': 'obj'}, 'spec': {'x': 1}, 'status': {}})
+
+    def element(loc, iterable):
+        return _STOP if vc.nondet(2, 'exhausted?') == 0 else key
+
+    def at_backedge(loc):
+        spec = Or(key.startswith(p1 + '/'), key.startswith(p2 + '/'), Eq(key, 'kubectl.kubernetes.io/last-applied-configuration'))
+        vc.ensure('dropped_iff_under_marked_prefix', Iff(len(ann.deleted) == 1, spec))
+        vc.ensure('drops_only_the_scanned_key', len(ann.deleted) <= 1)
+        for k in ann.deleted:
+            vc.ensure('drops_only_the_scanned_key', Eq(k, key))
+        vc.ensure('prefixes_come_from_detector', len(detector_calls) == 1)
+        vc.canary('canary.drops_everything', len(ann.deleted) == 1)
+        vc.canary('canary.drops_nothing', len(ann.deleted) == 0)
+    ld = vc.load('kopf._cogs.configs.diffbase', 'DiffBaseStorage.build', stubs={
+        'copy.deepcopy': lambda x: {k: v for k, v in x.items()},
+        'dicts.cherrypick': cherrypick,
+        'dicts.remove': lambda d, f: None,
+    }, loops={1: LoopSpec('for annotation in list(annotations)', element=element, at_backedge=at_backedge)})
+    essence = ld.fn(me, body=body, extra_fields=None)
+    vc.ensure('prefixes_come_from_detector', len(detector_calls) == 1)
+    vc.ensure('drops_only_the_scanned_key', ann.deleted == [])
+    return ('exhausted', sorted(essence))
